@@ -169,3 +169,43 @@ def real_dex_method_xrefs(U):
         edges = {((a.get_class_name(), a.get_name()), (b.get_class_name(), b.get_name())) for a, b in cg.value.edges()}
         want_e = {((me[0], me[1]), (c[0], c[1])) for me, calls in exp["to"].items() for c in calls}
         U.ensures("the call graph has exactly one edge per (caller, callee) pair", edges == want_e, got=sorted(edges)[:8], want=sorted(want_e)[:8])
+
+
+@unit("C13", covers=[(ANA, "Analysis.create_xref"), (ANA, "Analysis._create_xref"), (ANA, "Analysis.add")], level="bounded",
+      params=[{"order": o} for o in (0, 1)], samples=1,
+      note="two real DEX files that both define class Lp/Dup; (different methods, each with invoke instructions) next to a class of "
+           "their own, added in either order: the invoke instructions of BOTH definitions are cross references of their methods")
+def duplicate_class_definitions(U, order):
+    U.drawn.update({"order": order})
+    dexm, anam = U.mod(XR.DEXF), U.mod(ANA)
+    ext = lambda n: ("Lext/E;", n, XR.V)
+    f1 = [{"name": "Lp/Dup;", "methods": {"a": [("invoke", ext("x1"), 0x71), ("nop", None, 0)], "b": [("invoke", ("Lp/One;", "m", XR.V), 0x71)]}},
+          {"name": "Lp/One;", "methods": {"m": [("invoke", ext("y"), 0x71)]}}]
+    f2 = [{"name": "Lp/Dup;", "methods": {"c": [("nop", None, 0), ("invoke", ext("x2"), 0x71)], "a": [("invoke", ext("x3"), 0x71)]}},
+          {"name": "Lp/Two;", "methods": {"m": [("invoke", ("Lp/Dup;", "c", XR.V), 0x71)]}}]
+    files = [f1, f2] if order == 0 else [f2, f1]
+    dx = anam.Analysis()
+    vms = []
+    for f in files:
+        vm = dexm.DEX(XR.dex_bytes(f))
+        vms.append((vm, f))
+        dx.add(vm)
+    o = U.call(dx.create_xref)
+    U.ensures("create_xref does not raise", o.ok, exc=repr(o.exc)[:200])
+    if not o.ok:
+        return
+    for vm, f in vms:
+        for c in f:
+            for mn, body in c["methods"].items():
+                em = [m for m in vm.get_encoded_methods() if m.get_class_name() == c["name"] and m.get_name() == mn]
+                U.ensures("the method is in the file", len(em) == 1, cls=c["name"], method=mn)
+                if len(em) != 1:
+                    continue
+                ma = dx.get_method(em[0])
+                want = {(p[0], p[1], off) for off, (kind, p, op) in XR.offsets(body) if kind == "invoke"}
+                got = {(m2.class_name, m2.name, off) for _, m2, off in (ma.get_xref_to() if ma is not None else [])}
+                U.ensures("every invoke instruction of a method of either definition is a cross reference of that method", got == want,
+                          cls=c["name"], method=mn, file=files.index(f), got=sorted(got), want=sorted(want))
+
+
+duplicate_class_definitions.enumerate_inputs = lambda tier, **p: iter([{}])
